@@ -59,14 +59,18 @@ type SubOpts struct {
 
 // TypeOps is the ebu API instantiated for one pooled type.
 type TypeOps struct {
-	Idx    int
-	RT     reflect.Type
-	Name   string
-	Sub    func(bus *eventbus.EventBus, slot int, o SubOpts) error
-	Unsub  func(bus *eventbus.EventBus, slot int, ctx bool) error
-	Clear  func(bus *eventbus.EventBus)
-	Pub    func(bus *eventbus.EventBus, id int)
-	PubCtx func(bus *eventbus.EventBus, ctx context.Context, id int)
+	Idx int
+	RT  reflect.Type
+	// HandlerType / CtxHandlerType are the reflect types of the handlers SubCustom and
+	// the slots register (what the panic handler is given).
+	HandlerType    reflect.Type
+	CtxHandlerType reflect.Type
+	Name           string
+	Sub            func(bus *eventbus.EventBus, slot int, o SubOpts) error
+	Unsub          func(bus *eventbus.EventBus, slot int, ctx bool) error
+	Clear          func(bus *eventbus.EventBus)
+	Pub            func(bus *eventbus.EventBus, id int)
+	PubCtx         func(bus *eventbus.EventBus, ctx context.Context, id int)
 	// SubCustom subscribes a fresh closure (so it has its own identity only through the
 	// returned unsubscribe function) whose body and filter are given by the harness.
 	SubCustom func(bus *eventbus.EventBus, body func(ctx context.Context, id int), filter func(id int) bool, o SubOpts) (unsub func() error, err error)
@@ -111,6 +115,7 @@ func mkOps[T Ev](idx int) *TypeOps {
 	}
 	return &TypeOps{
 		Idx: idx, RT: rt, Name: rt.String(),
+		HandlerType: reflect.TypeOf(plain[0]), CtxHandlerType: reflect.TypeOf(ctxh[0]),
 		Sub: func(bus *eventbus.EventBus, slot int, o SubOpts) error {
 			if o.Ctx {
 				return eventbus.SubscribeContext(bus, ctxh[slot], opts(slot, o)...)
